@@ -49,20 +49,6 @@ def xform (j : Json) : Except String Json := do
       | none => Json.null).toArray),
     ("p2", renderBody 0 pl.p2)])
 
-/-! ### the flat fragment on which the functional specification is compared -/
-
-def opOfStmt : Stmt → Option (List Op)
-  | .field 0 [n] none .none => if n.q == 0 then some [.decl n.s] else none
-  | .field 0 [n] none (.scal v) => do let t ← v.text?; if v.q == 0 && n.q == 0 then some [.set n.s "Label" t] else none
-  | .field 0 [n] none .null => if n.q == 0 then some [.del n.s] else none
-  | .field 0 [n, a] none (.scal v) => do
-    let t ← v.text?
-    if n.q == 0 && a.q == 0 && a.s == "shape" then some [.set n.s "Shape" t] else none
-  | .field 0 [n, s, a] none (.scal v) => do
-    let t ← v.text?
-    if n.q == 0 && s.s == "style" && a.s == "fill" then some [.set n.s "style.Fill" t] else none
-  | _ => none
-
 def kindOf (kw : String) : Kind := if kw == "layers" then .layer else if kw == "scenarios" then .scenario else .step
 
 partial def itemsOf (body : Body) : Option (List Item) :=
@@ -80,14 +66,6 @@ partial def itemsOf (body : Body) : Option (List Item) :=
       let ops ← opOfStmt s
       if (match s with | .field _ [n] _ _ => (boardKw [n]).isSome || n.s == "classes" || n.s == "vars" | _ => false) then none
       else pure (ops.map Item.op ++ rest)) (some [])
-
-def expectedAttrs (name : String) (a : Attrs) : List (String × String) :=
-  let label := ((a.find? (·.1 == "Label")).map (·.2)).getD name
-  let shape := ((a.find? (·.1 == "Shape")).map (·.2)).getD "rectangle"
-  let fill := (a.find? (·.1 == "style.Fill")).map (·.2)
-  [("Label", label), ("Shape", shape)] ++ (match fill with | some f => [("style.Fill", f)] | none => [])
-
-def sortEnts (l : List CEnt) : List CEnt := (l.toArray.qsort (fun a b => a.id < b.id)).toList
 
 def kindStr : Kind → String
   | .layer => "layer" | .scenario => "scenario" | .step => "step"
